@@ -73,7 +73,7 @@ class Sessions(Stage):
 
     def gen(self, d, tier):
         specs = histgen.history(d, nconn=d.int(1, 3), nmsg=d.int(4, 40), profile=PROFILE, tagged=True)
-        dialect = 'new'
+        dialect = d.choice(['new', 'new', 'old'])
         initial = None
         ik = d.weighted([(50, 'none'), (28, 'generated'), (22, 'collapse')])
         if ik == 'generated':
